@@ -1,18 +1,94 @@
 //! C11 — sequential histories behave like a key-value map with explainable
 //! evictions.
 
+use crate::common::*;
 use crate::hist::*;
 use crate::runner::*;
-use kismet_vfs::kernel::Tape;
+use crate::world::*;
+use kismet_vfs::kernel::{DrawPolicy, Tape, K};
 
 pub struct C11;
+
+/// "A successful set or put always consumes its source file" when consuming it
+/// is what goes wrong: the unlink of the source (and only that call) fails
+/// with a drawn errno.  The write may fail; it may not succeed and leave the
+/// source behind.
+fn consume_under_fault(tape: &mut Tape, ctx: &RunCtx) -> RunOut {
+    let mut out = RunOut::default();
+    let kn = draw_knobs(tape);
+    let mut fs = new_fs(&kn);
+    let front = tape.draw(3); // plain, sharded, stack over plain/sharded
+    let sharded = front == 1 || (front == 2 && tape.draw(2) == 1);
+    let nshards = 2 + tape.draw(3) as usize;
+    let (h, s) = solve_key(tape, nshards, (0, 1));
+    let key = KeySpec { name: "thekey".into(), hash: h, sec: s };
+    let root = "/sim/c0".to_string();
+    fs.mkdir_all(&root);
+    let present = tape.draw(2) == 1;
+    if present {
+        let d = if sharded { format!("{}/{}", root, shard_dir_name(tape.draw(2) as usize)) } else { root.clone() };
+        fs.mkdir_all(&d);
+        let past = fs.now - 3_600_000_000_000;
+        fs.plant_file(&format!("{}/thekey", d), &make_value("thekey", 1, 5), 0o444, past - 120_000_000_000, past);
+    }
+    let dirs = vec![DirSpec { path: root.clone(), kind: if sharded { DirKind::Sharded(nshards) } else { DirKind::Plain }, capacity: 1_000_000 }];
+    let is_set = tape.draw(2) == 1;
+    let errno = *tape.pick(&[libc::EPERM, libc::EACCES, libc::EIO, libc::EROFS, libc::EBUSY]);
+    let mut w = World::new(fs, &kn, tape, 1, 1, dirs, WorldCfg::default());
+    w.script_trigger(0, vec![], DrawPolicy::Const(u64::MAX));
+    let spec = match front {
+        0 => HandleSpec::Plain(0),
+        1 => HandleSpec::Sharded(0),
+        _ => HandleSpec::Stack { writer: Some(0), readers: vec![], auto_sync: w.draw(2) == 0, checker: CheckerKind::None },
+    };
+    let hd = w.build(&spec);
+    let fired = std::sync::Arc::new(std::sync::atomic::AtomicBool::new(false));
+    let f2 = fired.clone();
+    w.sim.lock().injector = Some(Box::new(move |info, _t| {
+        // the unlink of anything that is not under a key name in the cache:
+        // that is the staged source (application scratch or .kismet_temp)
+        if info.lib && info.kind == K::Unlink && !info.raw.ends_with("/thekey") {
+            f2.store(true, std::sync::atomic::Ordering::Relaxed);
+            Some(errno)
+        } else {
+            None
+        }
+    }));
+    let op = if is_set { Op::Set { tag: 7, plen: 3 } } else { Op::Put { tag: 7, plen: 3 } };
+    let res = w.op(0, 0, &hd, 0, &key, &op);
+    w.sim.lock().injector = None;
+    w.leave();
+    let hit = fired.load(std::sync::atomic::Ordering::Relaxed);
+    out.count("consume_under_fault_runs", 1);
+    if hit {
+        out.count(&format!("fault:Unlink(source)/{}", errno_name(errno)), 1);
+    }
+    out.nontrivial = hit;
+    out.sig = hash_str(&format!("consume|{}|{}|{}|{}|{}", front, sharded, present, is_set, errno));
+    if let Some(p) = &res.panic {
+        out.violation = Some(Violation::new("panic", format!("the unlink of the source failed with {} and the operation panicked: {}", errno_name(errno), p)));
+    } else if res.out.is_ok() && res.source_left {
+        out.violation = Some(Violation::new("source-not-consumed", format!("{} reported success although the unlink of its source failed with {}: the source is still there ({})", op.name(), errno_name(errno), res.short())));
+    }
+    if let Some(v) = out.violation.as_mut() {
+        v.detail.push(format!("front={} sharded={} key_present={} [{}]", front, sharded, present, kn.describe()));
+        v.detail.extend(trace_tail(&w.trace_from(0), 60));
+    }
+    if ctx.detail {
+        out.sample = Some(crate::json::J::obj().set("mode", "source consumption under a failing unlink").set("result", res.short()));
+    }
+    let fin = w.finish(tape);
+    out.steps = fin.steps;
+    out.sim_ns = fin.sim_ns;
+    out
+}
 
 impl Check for C11 {
     fn id(&self) -> &'static str {
         "C11"
     }
     fn rule(&self) -> String {
-        "seeded sequential histories (20-200 ops, 2-8 keys whose hash pairs are solved to collide in / share / spread over shards) issued through 1-3 simulated processes each holding 1-3 handles (plain, sharded 2-8 shards, stacked with optional writer and 0-3 readers, read-only) on 1-3 directories with capacities from 0 to 'never'; trigger draws per process {always fire, 30% fire, never, tape} and random-shard draws from the tape. Oracle: a map per directory updated by set/put/ensure/promote/replace and by *observed* evictions, each of which must be a legal Second Chance eviction (C07 oracle) of an over-capacity directory; every lookup must equal the model; disk == model after every op; never two copies of a key in a sharded cache; sources consumed. Non-trivial = at least one eviction occurred; distinct = hash of configuration and (operation, handle kind, key, outcome) sequence".to_string()
+        "seeded sequential histories (20-200 ops, 2-8 keys whose hash pairs are solved to collide in / share / spread over shards) issued through 1-3 simulated processes each holding 1-3 handles (plain, sharded 2-8 shards, stacked with optional writer and 0-3 readers, read-only) on 1-3 directories with capacities from 0 to 'never'; trigger draws per process {always fire, 30% fire, never, tape} and random-shard draws from the tape. Oracle: a map per directory updated by set/put/ensure/promote/replace and by *observed* evictions, each of which must be a legal Second Chance eviction (C07 oracle) of an over-capacity directory; every lookup must equal the model; disk == model after every op; never two copies of a key in a sharded cache; sources consumed (one run in 25 checks that clause where it can go wrong: the unlink of the source fails with EPERM/EACCES/EIO/EROFS/EBUSY -- the write may fail, it may not succeed and leave the source behind). Non-trivial = at least one eviction occurred; distinct = hash of configuration and (operation, handle kind, key, outcome) sequence".to_string()
     }
     fn runs(&self, tier: Tier) -> u64 {
         match tier {
@@ -21,6 +97,9 @@ impl Check for C11 {
         }
     }
     fn run(&self, tape: &mut Tape, ctx: &RunCtx) -> RunOut {
+        if tape.draw(25) == 24 {
+            return consume_under_fault(tape, ctx);
+        }
         let long = tape.draw(8) == 7;
         let hp = HistParams {
             max_dirs: 3,
